@@ -6,6 +6,7 @@ import (
 
 	"github.com/iancoleman/strcase"
 	"github.com/pentops/j5/gen/j5/sourcedef/v1/sourcedef_j5pb"
+	"github.com/pentops/j5/internal/bcl/errpos"
 )
 
 type FileVisitor interface {
@@ -35,8 +36,14 @@ type FileNode struct {
 	Source SourceNode
 }
 
+// wrapErr adds the path and (unless the error already has one) the source
+// position of the element the error was found in.
 func wrapErr(source SourceNode, err error) error {
-	return fmt.Errorf("at %s: %w", source.PathString(), err)
+	err = fmt.Errorf("at %s: %w", source.PathString(), err)
+	if pos := source.GetPos(); pos != nil {
+		err = errpos.AddPosition(err, *pos)
+	}
+	return err
 }
 
 func (fn *FileNode) RangeRootElements(visitor FileVisitor) error {
@@ -60,7 +67,7 @@ func (fn *FileNode) RangeRootElements(visitor FileVisitor) error {
 				return wrapErr(source, err)
 			}
 			if err := visitor.VisitOneof(oneofNode); err != nil {
-				return err
+				return wrapErr(source, err)
 			}
 
 		case *sourcedef_j5pb.RootElement_Enum:
@@ -70,7 +77,7 @@ func (fn *FileNode) RangeRootElements(visitor FileVisitor) error {
 				return wrapErr(source, err)
 			}
 			if err := visitor.VisitEnum(enumNode); err != nil {
-				return err
+				return wrapErr(source, err)
 			}
 
 		case *sourcedef_j5pb.RootElement_Entity:
@@ -82,7 +89,7 @@ func (fn *FileNode) RangeRootElements(visitor FileVisitor) error {
 				Source:      source.child("entity"),
 			}
 			if err := entityNode.run(visitor); err != nil {
-				return err
+				return wrapErr(source, err)
 			}
 			// Entity is converted on-the-fly to root schemas, and uses the file
 			// callbacks for the elements it creates.
@@ -96,7 +103,7 @@ func (fn *FileNode) RangeRootElements(visitor FileVisitor) error {
 				}},
 			}
 			if err := visitor.VisitTopicFile(topicFileNode); err != nil {
-				return err
+				return wrapErr(source, err)
 			}
 
 		case *sourcedef_j5pb.RootElement_Service:
@@ -109,7 +116,7 @@ func (fn *FileNode) RangeRootElements(visitor FileVisitor) error {
 				services: []*serviceBuilder{node},
 			}
 			if err := visitor.VisitServiceFile(serviceFileNode); err != nil {
-				return err
+				return wrapErr(source, err)
 			}
 		default:
 			return walkerErrorf("unknown root element %T", element)
